@@ -6,9 +6,9 @@ From Coq Require Import Lia.
 Local Open Scope nat_scope.
 
 (* what compile is made of, for a well-formed registry *)
-Lemma compile_char R : wf_registry R ->
+Lemma compile_char R stale : wf_registry R ->
   exists L ms, augment_classes R = Ok L /\ augment_methods R (l_keys L) (r_methods R) = Ok ms /\
-               compile R = Ok (install L ms (assign_slots L ms)) /\
+               compile_with stale R = Ok (install_with stale L ms (assign_slots L ms)) /\
                lattice_ok R L /\ Forall (meth_wf L) ms /\ length ms = length (r_methods R) /\
                forall i m, nth_error (r_methods R) i = Some m -> exists cm, nth_error ms i = Some cm /\ meth_ok R L m cm.
 Proof.
@@ -16,22 +16,22 @@ Proof.
   pose proof (augment_classes_lattice_ok R L Hwf HL) as Hlo.
   destruct Hwf as [Hacy [Hbr Hmo]].
   destruct (augment_methods_ok R L Hlo (r_methods R) (methods_ok_premise R Hmo)) as [ms [Hms [Hlen [Hwfm Hok]]]].
-  exists L, ms. unfold compile. rewrite HL. cbn [bind]. rewrite Hms. cbn [bind].
+  exists L, ms. unfold compile_with. rewrite HL. cbn [bind]. rewrite Hms. cbn [bind].
   split; [reflexivity|]. split; [reflexivity|]. split; [reflexivity|]. split; [exact Hlo|]. split; [exact Hwfm|]. split; [exact Hlen|exact Hok].
 Qed.
 
-Theorem compile_total R : wf_registry R -> exists C, compile R = Ok C /\ o_fuel_ok C = true.
+Theorem compile_total R stale : wf_registry R -> exists C, compile_with stale R = Ok C /\ o_fuel_ok C = true.
 Proof.
-  intro Hwf. destruct (compile_char R Hwf) as [L [ms [_ [_ [HC [Hlo [Hms _]]]]]]].
+  intro Hwf. destruct (compile_char R stale Hwf) as [L [ms [_ [_ [HC [Hlo [Hms _]]]]]]].
   eexists. split; [exact HC|].
   pose proof (assign_slots_ok L ms (lo_wf R L Hlo) Hms) as Hso.
-  unfold install. destruct (place_tables _ _ _). destruct (place_vtbls _ _ _). cbn [o_fuel_ok]. apply (so_fuel L ms _ Hso).
+  unfold install_with. destruct (place_tables _ _ _). destruct (place_vtbls _ _ _). cbn [o_fuel_ok]. apply (so_fuel L ms _ Hso).
 Qed.
 
-Lemma install_lat L ms st : o_lat (install L ms st) = L.
-Proof. unfold install. destruct (place_tables _ _ _). destruct (place_vtbls _ _ _). reflexivity. Qed.
-Lemma install_meths L ms st : o_meths (install L ms st) = ms.
-Proof. unfold install. destruct (place_tables _ _ _). destruct (place_vtbls _ _ _). reflexivity. Qed.
+Lemma install_lat stale L ms st : o_lat (install_with stale L ms st) = L.
+Proof. unfold install_with. destruct (place_tables _ _ _). destruct (place_vtbls _ _ _). reflexivity. Qed.
+Lemma install_meths stale L ms st : o_meths (install_with stale L ms st) = ms.
+Proof. unfold install_with. destruct (place_tables _ _ _). destruct (place_vtbls _ _ _). reflexivity. Qed.
 
 (* a legal tuple of class keys is a tuple of covariant class indexes *)
 Lemma legal_cov_gen R L : lattice_ok R L -> forall ps cs,
@@ -56,14 +56,14 @@ Proof.
 Qed.
 
 (* THE theorem: the word method::resolve reads from update's tables is the one the specification designates *)
-Theorem resolve_correct R C mi m cs :
-  wf_registry R -> compile R = Ok C -> nth_error (r_methods R) mi = Some m ->
+Theorem resolve_correct R stale C mi m cs :
+  wf_registry R -> compile_with stale R = Ok C -> nth_error (r_methods R) mi = Some m ->
   Forall (fun c => c < ncls (o_lat C)) cs -> legal R m (map (key (o_lat C)) cs) ->
   resolve C mi (actuals_of C (m_shape m) cs)
   = Ok (word_of_outcome mi (spec_dispatch R (meth_defs R m) (map (key (o_lat C)) cs))).
 Proof.
   intros Hwf HC Hm Hcs Hlegal.
-  destruct (compile_char R Hwf) as [L [ms [_ [_ [HC' [Hlo [Hms [Hlen Hok]]]]]]]].
+  destruct (compile_char R stale Hwf) as [L [ms [_ [_ [HC' [Hlo [Hms [Hlen Hok]]]]]]]].
   rewrite HC in HC'. inversion HC'; subst C. clear HC'. rewrite install_lat in *.
   destruct (Hok mi m Hm) as [cm [Hcm Hmok]].
   assert (Hcmwf : meth_wf L cm) by (apply (proj1 (Forall_forall _ _) Hms); eapply nth_error_In; eassumption).
@@ -74,7 +74,7 @@ Proof.
   destruct Hmok as [Evp [Edefs [Enext Eshape]]]. rewrite Eshape.
   destruct Hcmwf as [Hne [Hvp [Hspecs [Hnx Hshape]]]]. rewrite Eshape in Hshape.
   assert (Hne' : cs <> []) by (intro; subst cs; destruct (cm_vp cm); [congruence|discriminate]).
-  pose proof (walk_correct R L ms Hwf Hlo Hms mi m cm Hcm (conj Evp (conj Edefs (conj Enext Eshape))) cs Hf) as Hw.
+  pose proof (walk_correct R L ms stale Hwf Hlo Hms mi m cm Hcm (conj Evp (conj Edefs (conj Enext Eshape))) cs Hf) as Hw.
   cbv zeta in Hw.
   destruct (Nat.eqb_spec (length (cm_vp cm)) 1) as [E1|NE1].
   - rewrite resolve_uni_walk by (unfold vcount; try lia; assumption). exact Hw.
@@ -93,17 +93,17 @@ Proof.
     exists (i :: cs). split; [constructor; assumption|]. cbn [map]. rewrite E. unfold key. rewrite Hk. reflexivity.
 Qed.
 
-Theorem dispatch_correct R C mi m args :
-  wf_registry R -> compile R = Ok C -> nth_error (r_methods R) mi = Some m -> legal R m args ->
+Theorem dispatch_correct R stale C mi m args :
+  wf_registry R -> compile_with stale R = Ok C -> nth_error (r_methods R) mi = Some m -> legal R m args ->
   exists cs, map (key (o_lat C)) cs = args /\
              resolve C mi (actuals_of C (m_shape m) cs) = Ok (word_of_outcome mi (spec_dispatch R (meth_defs R m) args)).
 Proof.
   intros Hwf HC Hm Hlegal.
-  destruct (compile_char R Hwf) as [L [ms [_ [_ [HC' [Hlo _]]]]]].
+  destruct (compile_char R stale Hwf) as [L [ms [_ [_ [HC' [Hlo _]]]]]].
   assert (EL : o_lat C = L) by (rewrite HC in HC'; inversion HC'; apply install_lat).
   destruct (legal_indexes R L m args Hlo Hlegal) as [cs [Hcs E]].
   exists cs. rewrite EL. split; [exact E|].
-  rewrite <- E. rewrite <- EL. apply resolve_correct; try assumption; rewrite EL; [exact Hcs|rewrite E; exact Hlegal].
+  rewrite <- E. rewrite <- EL. apply (resolve_correct R stale); try assumption; rewrite EL; [exact Hcs|rewrite E; exact Hlegal].
 Qed.
 
 Print Assumptions resolve_correct.
